@@ -113,8 +113,8 @@ PREDICATES = {"marker_pin_only": marker_pin_only, "solution_level_after_diversif
 
 
 PROP = dict(
-    proof_modules=["VrpProofs.C04", "VrpProofs.C02", "VrpProofs.Machine"],
-    model_modules=["VrpModel.Machine", "VrpModel.C04", "VrpModel.Prag", "VrpModel.Spec"],
+    proof_modules=["VrpProofs.C04", "VrpProofs.C01Reload", "VrpProofs.C02", "VrpProofs.Machine"],
+    model_modules=["VrpModel.Machine", "VrpModel.C04", "VrpModel.C01Reload", "VrpModel.Prag", "VrpModel.Spec"],
     drv="drv_c04", bin="c04", compare=compare, nontrivial=nontrivial, extra_evidence=extra,
     rule="operator histories: pragen problems (6-18 jobs; multi-task jobs, reloads, breaks, groups, compatibility, skills, limits, two "
          "profiles; a third with relations of all three kinds derived from a first solve; metric matrices), an initial cheapest-insertion "
